@@ -732,7 +732,16 @@ def _real_div(num: Poly, den: Poly) -> Poly:
     return q
 
 
+# Python-scalar semantics for division: when set, dividing by a symbolic value
+# forks on "divisor == 0" and raises ZeroDivisionError on that branch (plain
+# Python floats do; torch tensors return inf/nan instead and keep this off).
+STRICT_SCALAR_DIV = False
+
+
 def sc_div(a: Sc, b: Sc) -> Sc:
+    if STRICT_SCALAR_DIV and not b.is_const():
+        if bool(b == 0):
+            raise ZeroDivisionError("float division by zero")
     if b.is_const():
         if b.is_zero():
             raise ZeroDivisionError("division by the constant zero")
